@@ -6,14 +6,16 @@ from lib import kit
 FAMS = {
     # pid: (MC module, actions that must be taken, trace module, generator family, component label)
     "C17": ("MC_Osc", ["StepOsc", "StepNoise"], "Trace_Osc", "osc", "osc"),
-    "C18": ("MC_Sinc", ["Push", "Reset", "Conv"], "Trace_Sinc", "sinc", "sinc"),
+    "C18": ("MC_Sinc", ["Push", "PushZero", "Reset", "Conv", "ConvZero"], "Trace_Sinc", "sinc", "sinc"),
     "C20": ("MC_Window", ["NextChunk", "NthChunk", "SetBin", "SetHop", "SetFrames"], "Trace_Window", "window", "window"),
 }
 MC_CONSTANTS = {
     "C17": {"quick": {"rates": [1, 2, 4, 8, 16], "hz": "0..40 per frame, histories of any length (VIEW)", "stimulus_frames": 24},
             "thorough": {"rates": [1, 2, 4, 8, 16], "hz": "0..40 per frame, histories of any length (VIEW)", "stimulus_frames": 64}},
-    "C18": {"quick": {"depth": "1..3", "history": "3*depth+2", "resets": 2},
-            "thorough": {"depth": "1..4", "history": "3*depth+2", "resets": 3}},
+    "C18": {"quick": {"depth": "1..3 (every history of pushes / exact-zero pushes / resets) + 36 (straight histories, one reset)",
+                      "history": "3*depth+2", "resets": 2, "zero_frames": 7, "grid_stimuli_depths": [35, 36, 37, 50, 64]},
+            "thorough": {"depth": "1..4 + 36, 50, 64", "history": "3*depth+2", "resets": 3, "zero_frames": 9,
+                         "grid_stimuli_depths": [33, 35, 36, 37, 48, 50, 64, 96, 128]}},
     "C20": {"quick": {"L": "0..10", "b": "2..5", "h": "1..12", "nth": "0..3", "field_assignments": 1},
             "thorough": {"L": "0..12", "b": "2..6", "h": "1..14", "nth": "0..4", "field_assignments": 2}},
 }
@@ -87,13 +89,23 @@ def c17(ctx, replay):
 
 def c18(ctx, replay):
     ctx.assumptions += [
-        "zero-initialised ring of length 2*depth over Vec storage, depth 1..32; frame types [f64|f32|i16|i32; 1|2] "
-        "(i32 frames carry values with more than 24 significant bits)",
-        "fractional positions j/16; the kernel's shape is not specified by the property and not judged",
-        "linearity inputs are chosen so that a+b and 2^k*a are exact in the frame format (checked by the trace spec)",
+        "zero-initialised ring of length 2*depth over Vec storage; depth 1..32 and a sample of large depths (quick: 35, 36, "
+        "37, 41, 50, 64, 100; thorough: 33..41, 48, 50, 64, 72, 96, 100, 128); frame types [f64|f32|i8|i16|i32|u8|u16|u32; 1|2] "
+        "(32-bit frames carry values with more than 24 significant bits); integer samples are read as amplitudes "
+        "(distance from the format's equilibrium)",
+        "on the grid (x = 0, every ratio-1 converter output) the property's tolerance 1e-12 * peak is applied to every "
+        "format: for the integer formats it is less than one LSB, i.e. the delayed source must come out bit for bit",
+        "fractional positions j/16 for Interpolator::interpolate called directly; through the Converter also the positions "
+        "of ratios 1/2, 3/10, 3/2, 7/16, 2, 5/4, 441/480, 160/147; the kernel's shape is not specified by the property and not judged",
+        "linearity inputs are chosen so that a+b and 2^k*a are exact in the frame format (checked by the trace spec); one "
+        "input is dense (never silent, no two frames equal), the other is dense too or has structure: runs of exact zeros "
+        "of every length 0..2*depth+1 (depth <= 6; thresholds depth-1, depth, depth+1, 2*depth, 2*depth+1 and random lengths "
+        "beyond) after 0, 1..3 or 2*depth non-silent frames, leading zeros, silence throughout, b = -a (the sum falls "
+        "silent), runs of equal frames, alternating extremes, a = b; linearity is not judged for the 8-bit formats (the "
+        "per-tap truncation allowance 2*depth LSB exceeds every amplitude that cannot overflow)",
         "superposition tolerance 4*depth*eps*peak is statistical head-room (observed <= 1e-15), not a worst-case rounding bound",
         "integer frames stay below 1/8 full scale wherever a fractional position is interpolated, so that no tap sum "
-        "overflows; on the grid (ratio-1 converter runs, TLC's histories) i32 frames go up to full scale",
+        "overflows; on the grid (ratio-1 converter runs, TLC's histories) integer frames go up to full scale incl. MIN and MAX",
         "the converter is read by next() and, at the end of an execution, by consuming it through the provided Signal::take; "
         "Sinc is not Clone and has no public state",
     ]
